@@ -30,3 +30,32 @@ pub proof fn lemma_labels_largest(instrs: Seq<Instruction>, n: int)
         }
     }
 }
+
+/// appending one well-formed step that starts where the trace stands keeps the trace well-formed
+pub proof fn lemma_trace_push(instrs: Seq<Instruction>, labels: Map<String, usize>, repl: bool, start: usize, v_init: Map<String, String>, tr: Seq<Step>, st: Step)
+    requires
+        trace_ok(instrs, labels, repl, start, v_init, tr),
+        tr.len() > 0 ==> next_of(tr.last(), labels, repl) is To,
+        step_ok(instrs, st),
+        st.line == cur_line(labels, repl, start, tr),
+        st.v0 == cur_vars(v_init, tr),
+    ensures trace_ok(instrs, labels, repl, start, v_init, tr.push(st)),
+{
+    reveal(trace_ok);
+    let t2 = tr.push(st);
+    assert forall|i: int| 0 <= i < t2.len() implies step_ok(instrs, #[trigger] t2[i]) by { if i < tr.len() { assert(t2[i] == tr[i]); } }
+    assert forall|i: int| 0 <= i < t2.len() implies (#[trigger] t2[i]).line == (if i == 0 { start } else { next_of(t2[i - 1], labels, repl)->To_0 }) by {
+        if i < tr.len() { assert(t2[i] == tr[i]); if i > 0 { assert(t2[i - 1] == tr[i - 1]); } } else if i > 0 { assert(t2[i - 1] == tr.last()); }
+    }
+    assert forall|i: int| 0 <= i < t2.len() implies (#[trigger] t2[i]).v0 == (if i == 0 { v_init } else { v_after(t2[i - 1]) }) by {
+        if i < tr.len() { assert(t2[i] == tr[i]); if i > 0 { assert(t2[i - 1] == tr[i - 1]); } } else if i > 0 { assert(t2[i - 1] == tr.last()); }
+    }
+    assert forall|i: int| 0 <= i < t2.len() - 1 implies next_of(#[trigger] t2[i], labels, repl) is To by {
+        assert(t2[i] == tr[i]);
+        if i == tr.len() - 1 { assert(tr[i] == tr.last()); }
+    }
+}
+
+pub proof fn lemma_trace_empty(instrs: Seq<Instruction>, labels: Map<String, usize>, repl: bool, start: usize, v_init: Map<String, String>)
+    ensures trace_ok(instrs, labels, repl, start, v_init, Seq::empty()),
+{ reveal(trace_ok); }
